@@ -117,6 +117,29 @@ def choice_shapes(n, tier):
     return out
 
 
+def random_choice_shapes(n, tier, rng):
+    """seeded: alternatives drawn from Str / Insens / CharRange / two-element sequences over {a,b}; every string over {a,b,A}"""
+    out = []
+    def word():
+        return ''.join(rng.choice('ab') for _ in range(1 + rng.below(3)))
+    def alt():
+        k = rng.below(6)
+        if k <= 1:
+            return S(word())
+        if k == 2:
+            return I(word())
+        if k == 3:
+            lo = rng.choice('aAb')
+            return R(lo, rng.choice([c for c in 'aAbz' if c >= lo]))
+        if k == 4:
+            return seq('off', S(word()), I(word()))
+        return seq('off', R('a', 'b'), S(word()))
+    ins = strs(*all_strings('abA', 3 if tier == 'quick' else 4))
+    for _ in range(1 if tier == 'quick' else 3):
+        out.append(Shape('choice', choice(*[alt() for _ in range(n)]), ins, n, 'rnd'))
+    return out
+
+
 MIX = [S('x'), R('a', 'c'), 'any', I('aB'), opt(S('y')), rep('off', 0, 2, S('z'))]
 MIX_A = ['x', 'b', 'é', 'Ab', 'y', 'zz']
 MIX_B = ['x', 'a', 'Q', 'AB', '', 'z']
@@ -200,14 +223,17 @@ def leaf_shapes(tier):
     return out
 
 
-def make_shards(tier):
+def make_shards(tier, seed=1):
+    from .common import Rng
     ar = QUICK_ARITIES if tier == 'quick' else ALL_ARITIES
     shards = []
     for n in ar:
-        shards.append(Shard('a%d' % n, choice_shapes(n, tier) + seq_shapes(n, tier), macro_from=13))
+        rng = Rng(seed).fork("arity%d" % n)
+        shards.append(Shard('a%d' % n, choice_shapes(n, tier) + seq_shapes(n, tier) + random_choice_shapes(n, tier, rng), macro_from=13))
     if 12 in ar:
         # arity 12 once more, instantiated by macro as the generator does (`if *item >= 12`)
-        shards.append(Shard('m12', choice_shapes(12, tier) + seq_shapes(12, tier), macro_from=12))
+        rng = Rng(seed).fork("arity12")
+        shards.append(Shard('m12', choice_shapes(12, tier) + seq_shapes(12, tier) + random_choice_shapes(12, tier, rng), macro_from=12))
     shards.append(Shard('lf', leaf_shapes(tier) + rep_shapes(tier)))
     return shards
 
@@ -735,9 +761,9 @@ def build_all(tier, shards):
     return out, exe
 
 
-def run_arity(tier, flags):
+def run_arity(tier, flags, seed=1):
     """returns (shards, records, problems); records = list of (shard, shape, (form, bytes, a, b), impl_line, model_line)"""
-    shards = make_shards(tier)
+    shards = make_shards(tier, seed)
     bindir, model_exe = build_all(tier, shards)
     fill_preds(shards, bindir)
     work = os.path.join(CACHE, "runs", "arity_%s%s" % (tier, repo_tag()))
